@@ -547,16 +547,27 @@ def speclaws(v, invariants):
     shutil.rmtree(wd, ignore_errors=True)
 
 
-def apalache_laws(v):
-    """Unbounded (no bit width) check of the mixed-radix carry laws with Apalache: spec/apalache/Laws.tla."""
-    wd = vlib.workdir("%s_apalache" % v.prop)
-    out, dt = vlib.run(["timeout", "900", "apalache-mc", "check", "--length=0", "--inv=Law", "--out-dir=" + wd,
-                        os.path.join(vlib.SPEC, "apalache", "Laws.tla")], cwd=wd, check=False)
+APALACHE_LAWS = {
+    "Law": ("Laws.tla", "the carry laws of Val.tla (x+i-i=x, x+i-x=i, negation, time-of-day wrap and back) hold for all normal-form "
+                        "(instant, interval) pairs"),
+    "Law2": ("Laws2.tla", "MRCmp = sign of the exact difference / antisymmetric / translation invariant, sign-magnitude split, month-index "
+                          "arithmetic and its inverse, seconds <-> (h,m,s), month count = sign x (years x 12 + months), whole-second floor "
+                          "hold for all values"),
+}
+
+
+def apalache_laws(v, inv="Law"):
+    """Unbounded (no bit width) check of arithmetic laws of the specification with Apalache: spec/apalache/Laws*.tla
+    (typed literal copies of the operators of Val.tla / Ops.tla)."""
+    mod, what = APALACHE_LAWS[inv]
+    wd = vlib.workdir("%s_apalache_%s" % (v.prop, inv))
+    out, dt = vlib.run(["timeout", "900", "apalache-mc", "check", "--length=0", "--inv=" + inv, "--out-dir=" + wd,
+                        os.path.join(vlib.SPEC, "apalache", mod)], cwd=wd, check=False)
     if "EXITCODE: OK" not in out or "The outcome is: NoError" not in out:
-        raise ToolError("Apalache does not confirm the carry laws of Val.tla (spec/apalache/Laws.tla):\n" + out[-2000:])
-    v.notes.append("Apalache: Laws.tla invariant Law holds for all normal-form (instant, interval) pairs over unbounded integers (%.0fs)" % dt)
+        raise ToolError("Apalache does not confirm %s of spec/apalache/%s:\n%s" % (inv, mod, out[-2000:]))
+    v.notes.append("Apalache: %s invariant %s - %s, over unbounded integers (%.0fs)" % (mod, inv, what, dt))
     if len(v.cov["checker_cmd"]) < 8:
-        v.cov["checker_cmd"].append("apalache-mc check --length=0 --inv=Law spec/apalache/Laws.tla")
+        v.cov["checker_cmd"].append("apalache-mc check --length=0 --inv=%s spec/apalache/%s" % (inv, mod))
     shutil.rmtree(wd, ignore_errors=True)
 
 
@@ -1397,6 +1408,15 @@ def c15(v):
         days += list(range(a, b + 1))
     for i, n in enumerate(days):
         plan.append(("D.json" if i % 2 else "D.bin", [n]))
+        if i % 4 == 0:       # the date-bearing types with a time of day: text written and read back
+            plan.append(("TS.json", [[n, (i * 7919) % 86400, (i * 104729) % 1000000]]))
+        elif i % 4 == 2:
+            plan.append(("OD.json", [[n, (i * 7919) % 86400, 0]]))
+    for y in range(4, 10000, 4):     # every 29 February (and the 28th of the century years that have none)
+        n = vlib.dayno(y, 2, 29) if (y % 100 or y % 400 == 0) else vlib.dayno(y, 2, 28)
+        plan.append(("TS.json", [[n, 86399, 999999]]))
+        plan.append(("OD.json", [[n, 43200, 0]]))
+        plan.append(("D.json", [n]))
     step = 60 if v.tier == "quick" else 1
     for k, s_ in enumerate(range(0, 86400, step)):
         plan.append(("T.json" if k % 2 else "T.bin", [[s_, (s_ * 7919) % 1000000]]))
@@ -1698,6 +1718,8 @@ def _with_machine(prop_id):
     def wrapped(v):
         if not os.environ.get("VERIF_ONLY_MACHINE"):     # (set only by bin/machine_matrix: what the machine detects on its own)
             inner(v)
+            if prop_id in ("C07", "C09", "C13", "C16", "C17"):
+                apalache_laws(v, "Law2")
         thorough = v.tier == "thorough"
         before = len(v.violations)
         n, nbeh = machine(v, "m", lambda o: judged(o) or o in movers, judged=judged, nconf=12 if thorough else 4, bfs_budget=3000000 if thorough else 700000,
